@@ -106,7 +106,9 @@ theorem sendPushPromise_refuses (s : Streams) (parent pk pid : Nat) (fields : Li
   unfold Streams.sendPushPromise
   split
   · exact ⟨rfl, _, rfl⟩
-  · rw [h]; exact ⟨rfl, _, rfl⟩
+  · split
+    · exact ⟨rfl, _, rfl⟩
+    · rw [h]; exact ⟨rfl, _, rfl⟩
 
 /-- conversely: whatever these four accept passed `check_headers` -/
 theorem sendHeaders_ok (s : Streams) (id : Nat) (eos : Bool) (fields : List Hpack.Field)
@@ -135,9 +137,11 @@ theorem sendPushPromise_ok (s : Streams) (parent pk pid : Nat) (fields : List Hp
   unfold Streams.sendPushPromise at h
   split at h
   · cases h
-  · cases hc : Streams.checkHeaders fields with
-    | ok u => rfl
-    | error e => rw [hc] at h; cases h
+  · split at h
+    · cases h
+    · cases hc : Streams.checkHeaders fields with
+      | ok u => rfl
+      | error e => rw [hc] at h; cases h
 
 /-- `Streams::send_request`: a refused head leaves no stream behind and no frame queued -/
 theorem sendRequest_ok (s : Streams) (isHead : Bool) (fields : List Hpack.Field) (eos : Bool) (p : Option Nat)
